@@ -76,7 +76,7 @@ struct Shm {
 // Generator version: draws added to a generator after replay files were committed are guarded by
 // `c.gver >= N`, so that an old replay file (no "genver" line = version 1) still decodes to the
 // case it was saved for.  New cases are always generated (and saved) at PBT_GEN_VERSION.
-#define PBT_GEN_VERSION 3
+#define PBT_GEN_VERSION 4
 static int g_gver = PBT_GEN_VERSION;
 
 struct Ctx {
